@@ -135,7 +135,7 @@ def load_known_findings(prop: str) -> dict:
         return {}
     data = json.loads(f.read_text())
     return {e['id']: e for e in data.get('findings', [])
-            if e.get('property') == prop and e.get('status', 'open') == 'open'}
+            if (e.get('property') == prop or prop in e.get('properties', [])) and e.get('status', 'open') == 'open'}
 
 
 # ------------------------------------------------------------------------------------------
